@@ -223,8 +223,10 @@ example : ([.int .int 5, .nil] : List GoVal).Pairwise (fun a b => lessByKey [107
 `sortNatF k` is what `sort.Sort(keySortable{…})` computes when the sort text of every element `x` is
 `k x`: the insertion sort up to 12 elements, a sorted permutation beyond. `sortNatM` is the model. -/
 
+/-- `sort_natural` returns a permutation of its input — on every array, of every length. -/
 theorem sort_natural_perm (k : GoVal → Bytes) (xs : List GoVal) : (sortNatF k xs).Perm xs := sortNatF_perm k xs
 
+/-- … in ascending order of the sort texts (a total preorder on every array: no hypothesis). -/
 theorem sort_natural_sorted (k : GoVal → Bytes) (xs : List GoVal) :
     (sortNatF k xs).Pairwise (fun a b => k a ≤ k b) := sortNatF_sorted k xs
 
